@@ -52,7 +52,7 @@ def _case(arg):
     order = (int(rng.integers(1, 4)), int(rng.integers(1, 3)) if qed else 0)
     th_raw = wl.raw_theory(order=order)
     op_raw = wl.raw_operator(init=(mu0, 4), mugrid=mugrid, xgrid=xg.tolist(), degree=deg, is_log=log)
-    evolgrid = [(m * m, nf) for m, nf in mugrid]
+    evolgrid = [(m**2, nf) for m, nf in mugrid]  # as OperatorCard.evolgrid does
     with_err = bool(rng.random() < 0.6)
     tens = synth_f.random_tensors(rng, evolgrid, nx, with_err=with_err)
     if with_err and len(tens) > 1 and rng.random() < 0.3:  # mixed: one operator without error
@@ -88,7 +88,7 @@ def _case(arg):
                xgrid=xg.tolist(), targetgrid=None if tg is None else tg.tolist(), mugrid=mugrid, mu0=mu0, missing=missing, with_err=with_err)
 
     # ------------------------------------------------------------ oracle side
-    mu20 = mu0 * mu0
+    mu20 = mu0**2
     F = pdf.grid(xg, mu20)  # (b,k) = xf/x on the grid at the *initial* scale
     if qed:
         rot, labels_rot = flavor_f.uni_matrix(), flavor_f.UNI_LABELS
@@ -243,8 +243,18 @@ def _case(arg):
     return out
 
 
+def _safe(a):
+    try:
+        return _case(a)
+    except Exception as e:  # a harness failure is never a verdict
+        import traceback
+
+        return dict(key=("harness-error", a[1]), nontrivial=False, hits={}, viol=[], ok=0,
+                    inc=[f"harness error {type(e).__name__}: {e} {traceback.format_exc()[-300:]}"])
+
+
 def _chunk(args):
-    return [_case(a) for a in args]
+    return [_safe(a) for a in args]
 
 
 def _merge(ck, rec):
